@@ -3,7 +3,7 @@ from dataclasses import dataclass, field
 from typing import TYPE_CHECKING, Dict, List, Optional, Tuple
 
 from .encoding import Encoding, get_string_encoding
-from .exceptions import DecodeError, odxassert, odxraise, strict_mode
+from .exceptions import DecodeError, odxassert, odxraise
 from .odxtypes import AtomicOdxType, DataType, ParameterValue
 
 try:
@@ -114,11 +114,15 @@ class DecodeState:
         # ... string types, ...
         elif base_data_type in (DataType.A_UTF8STRING, DataType.A_ASCIISTRING,
                                 DataType.A_UNICODE2STRING):
-            text_errors = 'strict' if strict_mode else 'replace'
             str_encoding = get_string_encoding(base_data_type, base_type_encoding,
                                                is_highlow_byte_order)
             if str_encoding is not None:
-                internal_value = raw_value.decode(str_encoding, errors=text_errors)
+                try:
+                    internal_value = raw_value.decode(str_encoding, errors='strict')
+                except UnicodeDecodeError as e:
+                    # in non-strict mode, undecodable bytes are replaced
+                    odxraise(f"Cannot decode string object using {str_encoding}: {e}", DecodeError)
+                    internal_value = raw_value.decode(str_encoding, errors='replace')
             else:
                 internal_value = "ERROR"
 
